@@ -140,3 +140,30 @@ def three_point_interp_d(P):
         pm, p0, pp = Pe[k], Pe[k + 1], Pe[k + 2]
         return (pp - pm) / 2 + (pp - 2 * p0 + pm) * (s - k)
     return d, n + 0.5, [k + 0.5 for k in range(n + 1)]
+
+
+# ---- single entries (used by the history / cache checks and their replays) ----
+def daun_entry(n, deg, j, i):
+    """Abel projection at pixel i of the j-th daun basis function (degree 3: the
+    clamped cardinal spline of size n)"""
+    f, Rm, br = daun3_f(n, j) if deg == 3 else daun_f(deg, j)
+    return los(f, float(i), Rm, br)
+
+
+def dasch_entry(kind, n, i, j):
+    """inverse Abel integral at r = i of the two_point / three_point interpolant of
+    the unit vector e_j (n samples)"""
+    e = np.zeros(n)
+    e[j] = 1.0
+    d, hi, br = (two_point_interp_d if kind == 'two_point' else three_point_interp_d)(e)
+    br = [x for x in br if abs(x - j) <= 2]
+    return inv_abel_pieces(d, float(i), max(0.0, j - 2.0), min(hi, j + 2.0), br)
+
+
+def onion_products(D, a, b):
+    """((W D)[a, b], (D W)[a, b]) with W[i][k] = projection at pixel i of the k-th
+    ring indicator, by quadrature (row a and column b of W only)"""
+    n = D.shape[0]
+    row = np.array([los(*(daun_f(0, k)[:1]), float(a), *daun_f(0, k)[1:])[0] for k in range(n)])
+    col = np.array([los(*(daun_f(0, b)[:1]), float(k), *daun_f(0, b)[1:])[0] for k in range(n)])
+    return float(row @ D[:, b]), float(D[a, :] @ col)
